@@ -34,7 +34,7 @@ pub fn gen_case(seed: u64, profile: &str, pkg: Pkg) -> ContCase {
         sort: None,
         unique_keys: false,
     };
-    let dir = DirCase { seed: rng.next(), vstores: vec![false], stores: vec![files], indexes: vec![IndexDef { name: "files".into(), store: 0, offset: 0, count: n_entries as u32 }], defer: 0 };
+    let dir = DirCase { seed: rng.next(), vstores: vec![false], stores: vec![files], indexes: vec![IndexDef { name: "files".into(), store: 0, offset: 0, count: n_entries as u32 }], defer: 0, free: 0 };
     ContCase { content, dir, pkg, extra: vec![] }
 }
 
